@@ -11,8 +11,10 @@ revs    = comma separated list, `-` = empty
 
   unc <graph> <branch> <master> <tree parents revs> <d> <keepTags T|F> <local T|F>
       -> `ok <branch> <master> <tree parents>` | `E:…`
+  unt … (same fields)  -> uncommit(tree=None);   und … (same fields) -> uncommit(dry_run=True)
   cu  <graph> <branch> <master> <tree parents revs> <new rev>
       -> state after commit of <new rev> followed by uncommit of one revision (same format)
+  cul … (same fields)  -> commit --local of <new rev> followed by uncommit --local
   fua <graph> <u> <commons revs>          -> sorted unique ancestors
   heads <graph> <revs>                    -> sorted heads
   filter <graph> <revs>                   -> parent list kept by set_parent_ids
@@ -68,15 +70,28 @@ def showSt (st : St) : String :=
 def showSorted (l : List Rev) : String :=
   joinList ((l.eraseDups.mergeSort fun a b => decide (a ≤ b)).map toString)
 
+def handleUnc (f : Graph → St → Nat → Bool → Bool → Except Err St) (g br m ps d keep loc : String) : String :=
+  match parseGraph g, parseBranch br, parseMaster m, parseNatList ps, d.toNat?, parseBool keep, parseBool loc with
+  | some g, some br, some m, some ps, some d, some keep, some loc =>
+    if !wf g then "not-wf" else
+    match f g { br := br, master := m, parents := ps } d keep loc with
+    | .ok st => showSt st
+    | .error e => e.toString
+  | _, _, _, _, _, _, _ => "bad-op"
+
 def handle : List String → String
-  | ["unc", g, br, m, ps, d, keep, loc] =>
-    match parseGraph g, parseBranch br, parseMaster m, parseNatList ps, d.toNat?, parseBool keep, parseBool loc with
-    | some g, some br, some m, some ps, some d, some keep, some loc =>
-      if !wf g then "not-wf" else
-      match uncommit g { br := br, master := m, parents := ps } d keep loc with
+  | ["unc", g, br, m, ps, d, keep, loc] => handleUnc uncommit g br m ps d keep loc
+  | ["unt", g, br, m, ps, d, keep, loc] => handleUnc uncommitNoTree g br m ps d keep loc
+  | ["und", g, br, m, ps, d, keep, loc] => handleUnc uncommitDry g br m ps d keep loc
+  | ["cul", g, br, m, ps, r] =>
+    match parseGraph g, parseBranch br, parseMaster m, parseNatList ps, r.toNat? with
+    | some g, some br, some m, some ps, some r =>
+      if !wf ((r, ps) :: g) then "not-wf" else
+      let (g', st') := commitLocal g { br := br, master := m, parents := ps } r
+      match uncommit g' st' 1 false true with
       | .ok st => showSt st
       | .error e => e.toString
-    | _, _, _, _, _, _, _ => "bad-op"
+    | _, _, _, _, _ => "bad-op"
   | ["cu", g, br, m, ps, r] =>
     match parseGraph g, parseBranch br, parseMaster m, parseNatList ps, r.toNat? with
     | some g, some br, some m, some ps, some r =>
